@@ -196,7 +196,7 @@ def filt_case(draw):
     return dict(ntr=ntr, nx=nx, cover=cover, lo=lo, hi=hi, ranges=[list(covers[c]) for c in per_trace], direction=draw(st.sampled_from(['increasing', 'decreasing'])),
                 fam=draw(st.sampled_from(['random', 'linear', 'const'])), seed=draw(st.integers(0, 10 ** 6)), c=draw(st.sampled_from([3.0, -2.5, 1e3, 0.0])),
                 mask=draw(st.sampled_from([None, 'runs', 'runs'])), runs=[[draw(st.integers(0, ntr - 1)), draw(st.integers(1, nx - 30)), draw(st.integers(1, 25))] for _ in range(3)],
-                toair=draw(st.booleans()), wset=draw(st.sampled_from([False, False, True])), wfunc=draw(st.sampled_from(['legendre', 'chebyshev', 'poly', 'legendre'])), wxmin=draw(st.sampled_from([0, 0, 1, 500])), grid=draw(st.sampled_from(['log', 'log', 'log', 'linear-wide'])), maskval=draw(st.sampled_from([1, -1, 7, -2147483648])), dead_trace=draw(st.sampled_from([False, False, True])), alpha=draw(uf), beta=draw(uf), shift=[draw(uf) for _ in range(4)])
+                toair=draw(st.booleans()), wset=draw(st.sampled_from([False, False, True])), wfunc=draw(st.sampled_from(['legendre', 'chebyshev', 'poly', 'legendre'])), wxmin=draw(st.sampled_from([0, 0, 1, 500])), grid=draw(st.sampled_from(['log', 'log', 'log', 'linear-wide'])), maskval=draw(st.sampled_from([1, -1, 7, -2147483648])), dead_trace=draw(st.sampled_from([False, False, True])), sandwich=draw(st.sampled_from([False, False, True])), alpha=draw(uf), beta=draw(uf), shift=[draw(uf) for _ in range(4)])
 
 
 def filt_body(case):
@@ -213,7 +213,14 @@ def filt_body(case):
         if case.get('grid') == 'linear-wide':
             # a grid linear in wavelength from the far UV to the near IR: d(log lambda) per pixel changes by a factor ~100 along the trace
             ll = np.log10(100.0 + (11000.0 - 100.0) * k / (nx - 1))
+        if case.get('sandwich') and ntr >= 3 and 0 < t < ntr - 1:
+            # (see below) a trace whose dispersion has another shape than its neighbours': linear in wavelength instead of in its logarithm
+            ll = np.log10(10 ** l0 + (10 ** l1 - 10 ** l0) * k / (nx - 1))
         rows.append(ll if case['direction'] == 'increasing' else ll[::-1].copy())
+    if case.get('sandwich') and ntr >= 3:
+        # the first and the last trace share one wavelength solution exactly, the traces between them have their own
+        rows[-1] = rows[0].copy()
+        note_label('first-and-last-trace-share-a-solution')
     logwave = np.array(rows)
     wave = 10 ** logwave
     idx = np.arange(ntr * nx, dtype='f8').reshape(ntr, nx)
@@ -260,6 +267,19 @@ def filt_body(case):
         with judge('wset-vs-waveimg'):
             check(r1_img.shape == r1.shape and bool(np.all(np.abs(r1_img - r1) <= 1e-9 * max(1.0, np.abs(r1).max()))), 'filter:wset-and-waveimg-disagree',
                   lambda: dict(maxdev=float(np.abs(r1_img - r1).max()), func=case.get('wfunc'), xmin=case.get('wxmin')))
+    if ntr >= 2:
+        # "per trace": every row of the answer is a function of that trace alone - the same trace handed over as a one-row image gives the same
+        # band fluxes
+        with judge('per-trace'):
+            for t in range(ntr):
+                if mask is not None and t == dead:
+                    continue
+                kw1 = dict(toair=case['toair'], waveimg=wave[t:t + 1].copy())
+                if mask is not None:
+                    kw1['mask'] = mask[t:t + 1].copy()
+                rt = np.asarray(call(filter_thru, f1[t:t + 1].copy(), **kw1), dtype='f8')
+                check(rt.shape == (1, 5) and bool(np.all(np.abs(rt[0] - r1[t]) <= 1e-9 * max(1.0, np.abs(r1).max()))), 'filter:trace-result-depends-on-the-other-traces',
+                      lambda: dict(trace=t, alone=rt.tolist(), in_image=r1[t].tolist()))
     a, b = case['alpha'], case['beta']
     r12 = run(a * f1 + b * f2)
     rc = run(np.full((ntr, nx), case['c']))
